@@ -341,7 +341,7 @@ pub fn c01_families(tier: &str) -> Vec<SeqSpec> {
     );
     v.push(trivial_move_family(t, READS));
     v.push(rich_family("F-rich/T300", k3s(), a1(), if t { 6 } else { 4 }, READS));
-    v.push(levels_family("F-levels/L", "L", k4(), a1(), if t { 5 } else { 3 }, READS));
+    v.push(levels_family("F-levels/L", "L", k4(), a1(), if t { 6 } else { 4 }, READS));
     v
 }
 
@@ -481,7 +481,7 @@ pub fn c03_seq_families(tier: &str) -> Vec<SeqSpec> {
     fams.push(spec("C03-small/M2", &["M2"], k2(), a_c03_small(), if t { 7 } else { 5 }, ck).lazy());
     fams.push(spec("C03-small/R", &["R"], k2(), a_c03_small(), if t { 7 } else { 5 }, ck).lazy());
     fams.push(rich_family("C03-rich/T300", k3(), a_c03(), if t { 4 } else { 3 }, ck));
-    fams.push(levels_family("C03-levels/L", "L", k4(), a_c03(), if t { 4 } else { 2 }, ck));
+    fams.push(levels_family("C03-levels/L", "L", k4(), a_c03(), if t { 4 } else { 3 }, ck));
     // T1: every table holds one entry, so the versions of one key pinned by snapshots straddle
     // adjacent files of a level
     fams.push(spec("C03-small/T1", &["T1"], k2(), a_c03_small(), if t { 8 } else { 5 }, ck).flush());
@@ -527,7 +527,7 @@ pub fn c11_seq_families(tier: &str) -> Vec<SeqSpec> {
     fams.push(spec("C11-seek/T300", &["T300"], k4(), a_seek, if t { 7 } else { 5 }, ck).flush());
     fams.push(trivial_move_family(t, ck));
     fams.push(rich_family("C11-rich/T300", k3(), a_c11(), if t { 4 } else { 3 }, ck));
-    fams.push(levels_family("C11-levels/L", "L", k4(), a_c11(), if t { 4 } else { 2 }, ck));
+    fams.push(levels_family("C11-levels/L", "L", k4(), a_c11(), if t { 4 } else { 3 }, ck));
     fams
 }
 
